@@ -782,8 +782,108 @@ func lvarOf(addr ssa.Value) lvar {
 				return lvar{cell: cell, field: fieldName(fa.X.Type(), fa.Field)}
 			}
 		}
+		// bt.c inside a method of a small unexported helper type whose only receiver, at every call site, is the address of
+		// one local struct variable: that variable's field
+		if p, ok := fa.X.(*ssa.Parameter); ok {
+			if cell := paramCell(p, 0); cell != nil {
+				return lvar{cell: cell, field: fieldName(fa.X.Type(), fa.Field)}
+			}
+		}
 	}
 	return lvar{}
+}
+
+var paramCellMemo = map[*ssa.Parameter]*ssa.Alloc{}
+
+// paramCell: the single local struct variable whose address every call site passes for pointer parameter p of an unexported
+// top-level function (nil if there is no such unique variable).
+func paramCell(p *ssa.Parameter, depth int) *ssa.Alloc {
+	if c, ok := paramCellMemo[p]; ok {
+		return c
+	}
+	paramCellMemo[p] = nil
+	fn := p.Parent()
+	if fn == nil || fn.Parent() != nil || token.IsExported(fn.Name()) || curCtx == nil || depth > 3 {
+		return nil
+	}
+	pt, ok := p.Type().Underlying().(*types.Pointer)
+	if !ok {
+		return nil
+	}
+	if _, isStruct := pt.Elem().Underlying().(*types.Struct); !isStruct {
+		return nil
+	}
+	idx := -1
+	for i, q := range fn.Params {
+		if q == p {
+			idx = i
+		}
+	}
+	var cell *ssa.Alloc
+	sites := callCommonsOf(curCtx, fn)
+	if idx < 0 || len(sites) == 0 {
+		return nil
+	}
+	for _, cc := range sites {
+		if idx >= len(cc.Args) {
+			return nil
+		}
+		var c2 *ssa.Alloc
+		switch a := cc.Args[idx].(type) {
+		case *ssa.Parameter:
+			if a == p {
+				continue // recursion
+			}
+			c2 = paramCell(a, depth+1)
+		default:
+			c2 = cellOf(a)
+		}
+		if c2 == nil || (cell != nil && c2 != cell) {
+			return nil
+		}
+		cell = c2
+	}
+	paramCellMemo[p] = cell
+	return cell
+}
+
+// cellHelpers: the top-level functions that receive the address of cell (directly or from one another), i.e. the methods of a
+// local helper-struct variable.
+func cellHelpers(cell *ssa.Alloc) []*ssa.Function {
+	var out []*ssa.Function
+	seen := map[*ssa.Function]bool{}
+	var visit func(f *ssa.Function)
+	visit = func(f *ssa.Function) {
+		instrs(f, func(b *ssa.BasicBlock, i int, in ssa.Instruction) {
+			cc := callCommon(in)
+			if cc == nil {
+				return
+			}
+			cal := staticCallee(cc)
+			if cal == nil || cal.Blocks == nil || seen[cal] || cal.Parent() != nil {
+				return
+			}
+			for i, a := range cc.Args {
+				if i < len(cal.Params) {
+					if pp, ok := ssa.Value(cal.Params[i]).(*ssa.Parameter); ok && paramCell(pp, 0) == cell && (cellOf(a) == cell || isParamOfCell(a, cell)) {
+						seen[cal] = true
+						out = append(out, cal)
+						visit(cal)
+						return
+					}
+				}
+			}
+		})
+	}
+	for _, f := range withAnon(cell.Parent()) {
+		visit(f)
+	}
+	return out
+}
+
+func isParamOfCell(a ssa.Value, cell *ssa.Alloc) bool {
+	p, ok := a.(*ssa.Parameter)
+	return ok && paramCell(p, 0) == cell
 }
 
 // loadVar: v is a load of a variable → that variable.
@@ -803,7 +903,7 @@ func storesToVar(v lvar) []*ssa.Store {
 		return storesTo(v.cell)
 	}
 	var out []*ssa.Store
-	for _, f := range withAnon(v.cell.Parent()) {
+	for _, f := range append(withAnon(v.cell.Parent()), cellHelpers(v.cell)...) {
 		instrs(f, func(b *ssa.BasicBlock, i int, in ssa.Instruction) {
 			if st, ok := in.(*ssa.Store); ok && lvarOf(st.Addr) == v {
 				out = append(out, st)
